@@ -1068,105 +1068,248 @@ def _linearise(body, truth: dict[str, bool]) -> list[ast.stmt]:
     return out
 
 
+def _used_only_as_dtype(fn: FunctionInfo, param: str) -> bool:
+    """every use of the parameter is as a dtype (dtype=param, second positional of zeros/empty/ones, np.promote_types / result_type argument)"""
+    uses = 0
+    for node in walk_no_nested(fn.node):
+        if isinstance(node, ast.Call):
+            nm = node.func.attr if isinstance(node.func, ast.Attribute) else getattr(node.func, "id", "")
+            for k in node.keywords:
+                if k.arg == "dtype" and isinstance(k.value, ast.Name) and k.value.id == param:
+                    uses += 1
+            if nm in ("zeros", "ones", "empty", "full") and len(node.args) >= 2 and isinstance(node.args[1], ast.Name) and node.args[1].id == param:
+                uses += 1
+            if nm in ("promote_types", "result_type", "dtype", "astype"):
+                uses += sum(1 for a in node.args if isinstance(a, ast.Name) and a.id == param)
+    total = sum(1 for node in walk_no_nested(fn.node) if isinstance(node, ast.Name) and node.id == param and isinstance(node.ctx, ast.Load))
+    return uses > 0 and uses == total
+
+
+def _call_sites(prog: Program, fn: FunctionInfo) -> list:
+    out = []
+    for caller in prog.package_functions():
+        for node in walk_no_nested(caller.node):
+            if isinstance(node, ast.Call):
+                f_ = node.func
+                if (isinstance(f_, ast.Name) and f_.id == fn.name and fn.cls is None) or (isinstance(f_, ast.Attribute) and f_.attr == fn.name and fn.cls is not None):
+                    out.append((caller, node))
+    return out
+
+
+def _arg_map(fn: FunctionInfo, call: ast.Call) -> dict:
+    names = [p.arg for p in fn.params()]
+    if fn.cls is not None and not fn.is_staticmethod and names:
+        names = names[1:]
+    out = {}
+    for i, a in enumerate(call.args):
+        if i < len(names) and not isinstance(a, ast.Starred):
+            out[names[i]] = a
+    for k in call.keywords:
+        if k.arg is not None:
+            out[k.arg] = k.value
+    return out
+
+
+def _flow_insensitive_deps(fn: FunctionInfo) -> dict:
+    """name -> parameters it may depend on (closure over every assignment of the function)"""
+    deps: dict[str, set[str]] = {p: {p} for p in fn.param_names()}
+    for _ in range(6):
+        changed = False
+        for node in walk_no_nested(fn.node):
+            targets, value = [], None
+            if isinstance(node, ast.Assign):
+                targets, value = node.targets, node.value
+            elif isinstance(node, (ast.AugAssign, ast.AnnAssign)) and node.value is not None:
+                targets, value = [node.target], node.value
+            if value is None:
+                continue
+            d = set()
+            for x in ast.walk(value):
+                if isinstance(x, ast.Name):
+                    d |= deps.get(x.id, set())
+            for t in targets:
+                for x in ast.walk(t):
+                    if isinstance(x, ast.Name) and isinstance(x.ctx, ast.Store):
+                        if not d <= deps.get(x.id, set()):
+                            deps[x.id] = deps.get(x.id, set()) | d
+                            changed = True
+        if not changed:
+            break
+    return deps
+
+
+def norm_stmt_of_call(call: ast.Call) -> str:
+    return ast.unparse(call)[:100]
+
+
+def _k7_analyse(prog: Program, fn: FunctionInfo, summaries: dict) -> tuple[dict, dict, dict] | None:
+    """per-path def-use of buffer dtypes in one function: (findings, proven, call_findings) or None when the function builds no buffer and calls no
+    summarised helper. summaries: helper name -> (FunctionInfo, dtype parameters, parameters whose data the helper stores)"""
+    params = set(fn.param_names())
+    bool_params = {p.arg for p in fn.params() if p.annotation is not None and "bool" in ast.unparse(p.annotation)}
+    tests = _tests_of(fn)
+    if len(tests) > 7:
+        return None
+    has = False
+    for node in walk_no_nested(fn.node):
+        if isinstance(node, ast.Call):
+            nm = node.func.attr if isinstance(node.func, ast.Attribute) else getattr(node.func, "id", "")
+            if (isinstance(node.func, ast.Attribute) and nm in BUFFER_MAKERS | LIKE_MAKERS) or nm in summaries:
+                has = True
+    if not has:
+        return None
+    findings: dict[str, tuple] = {}
+    proven: dict[str, tuple] = {}
+    call_findings: dict[str, tuple] = {}
+    call_proven: dict[str, tuple] = {}
+    first = fn.params()[0].arg if fn.cls is not None and not fn.is_staticmethod and fn.params() else ""
+    for mask in range(1 << len(tests)):
+        truth = {t: bool(mask >> i & 1) for i, t in enumerate(tests)}
+        deps: dict[str, set[str]] = {p: {p} for p in params}  # name -> parameters it depends on
+        bufs: dict[str, tuple[set[str], ast.stmt]] = {}
+        for st in _linearise(fn.node.body, truth):
+            def dep_of(e: ast.AST) -> set[str]:
+                out: set[str] = set()
+                for x in ast.walk(e):
+                    if isinstance(x, ast.Name) and x.id in deps:
+                        out |= deps[x.id]
+                return out
+
+            def dtype_deps(e: ast.AST) -> set[str]:
+                """parameters that can widen the dtype of the value e: conditions, masks, indices and truth values do not"""
+                if isinstance(e, ast.Compare) or (isinstance(e, ast.UnaryOp) and isinstance(e.op, (ast.Invert, ast.Not))):
+                    return set()
+                if isinstance(e, ast.Call):
+                    f_ = e.func
+                    nm_ = f_.attr if isinstance(f_, ast.Attribute) else getattr(f_, "id", "")
+                    if nm_ == "where" and len(e.args) == 3:
+                        return dtype_deps(e.args[1]) | dtype_deps(e.args[2])
+                    if nm_.startswith(("is", "logical_")) or nm_ in ("any", "all", "allclose", "array_equal", "nonzero", "argmax", "argmin", "argsort"):
+                        return set()
+                if isinstance(e, ast.Subscript):
+                    return dtype_deps(e.value)
+                if isinstance(e, ast.Name):
+                    return set(deps.get(e.id, set())) - bool_params
+                out_: set[str] = set()
+                for ch in ast.iter_child_nodes(e):
+                    if isinstance(ch, ast.expr):
+                        out_ |= dtype_deps(ch)
+                    elif isinstance(ch, ast.keyword):
+                        out_ |= dtype_deps(ch.value)
+                return out_
+
+            # calls of helpers that assemble a buffer with a dtype they are handed: judged here, with the dependences of this path
+            if summaries:
+                for c in ast.walk(st):
+                    if isinstance(c, ast.Call):
+                        nm = c.func.attr if isinstance(c.func, ast.Attribute) else getattr(c.func, "id", "")
+                        if nm in summaries and summaries[nm][0] is not fn:
+                            helper, dparams, stored = summaries[nm]
+                            amap = _arg_map(helper, c)
+                            have: set[str] = set()
+                            for p_ in dparams:
+                                if p_ in amap:
+                                    have |= dep_of(amap[p_])
+                            need: set[str] = set()
+                            for p_ in stored:
+                                if p_ in amap:
+                                    a_ = amap[p_]
+                                    # an argument that is None on this path (`x is not None` false / `x is None` true) carries no data
+                                    if isinstance(a_, ast.Name) and (truth.get(f"{a_.id} is not None") is False or truth.get(f"{a_.id} is None") is True):
+                                        continue
+                                    need |= dtype_deps(a_)
+                            need -= {first}
+                            key_c = ast.unparse(c)[:100]
+                            if need - have:
+                                call_findings[key_c] = (c, helper, sorted(need - have))
+                            else:
+                                call_proven.setdefault(key_c, (c, helper))
+
+            if isinstance(st, ast.Assign) and len(st.targets) == 1:
+                tgt, val = st.targets[0], st.value
+                if isinstance(tgt, ast.Name):
+                    made = None
+                    if isinstance(val, ast.Call) and isinstance(val.func, ast.Attribute):
+                        mk = val.func.attr
+                        if mk in BUFFER_MAKERS:
+                            d = next((k.value for k in val.keywords if k.arg == "dtype"), None)
+                            if d is None and mk in ("zeros", "ones", "empty") and len(val.args) >= 2:
+                                d = val.args[1]
+                            if d is not None and dep_of(d):
+                                made = dep_of(d)
+                        elif mk in LIKE_MAKERS and val.args and not any(k.arg == "dtype" for k in val.keywords):
+                            if dep_of(val.args[0]):
+                                made = dep_of(val.args[0])
+                    if made is not None:
+                        bufs[tgt.id] = (made, st)
+                    else:
+                        bufs.pop(tgt.id, None)
+                    deps[tgt.id] = dep_of(val)
+                elif isinstance(tgt, (ast.Tuple, ast.List)):
+                    d = dep_of(val)
+                    for x in ast.walk(tgt):
+                        if isinstance(x, ast.Name):
+                            deps[x.id] = d
+                            bufs.pop(x.id, None)
+                elif isinstance(tgt, ast.Subscript) and isinstance(tgt.value, ast.Name) and tgt.value.id in bufs:
+                    pd, cst = bufs[tgt.value.id]
+                    pv = dtype_deps(val) - {first}
+                    key = norm_stmt(st)
+                    if pv and not pv <= pd:
+                        findings[key] = (st, cst, sorted(pv - pd), sorted(pd))
+                    else:
+                        proven.setdefault(key, (st, cst))
+            elif isinstance(st, ast.AugAssign) and isinstance(st.target, ast.Name):
+                deps[st.target.id] = deps.get(st.target.id, set()) | dep_of(st.value)
+    for k in list(call_proven):
+        if k in call_findings:
+            del call_proven[k]
+    return findings, proven, {"bad": call_findings, "ok": call_proven}
+
+
 def rule_K7(run: Run, prog: Program) -> int:
     run.rule(
         "E6.K7",
         "a buffer assembled by item assignment (np.eye/zeros/empty(..., dtype=D); buf[...] = V) gets a dtype D that depends on EVERY "
         "parameter whose data is stored into it: if D is computed from one operand only, the other operand is silently cast "
-        "(an integer matrix with a fractional offset is truncated). Decided per path, with equal `if` tests treated as correlated.",
+        "(an integer matrix with a fractional offset is truncated). Decided per path, with equal `if` tests treated as correlated; when the dtype "
+        "is a parameter of a helper, the obligation is judged at every call site of the helper, with the dependences of the caller's path.",
     )
     n = 0
-    for fn in prog.package_functions():
-        if fn.parent is not None:
+    fns = [fn for fn in prog.package_functions() if fn.parent is None]
+    first_pass = {}
+    summaries: dict = {}
+    for fn in fns:
+        res = _k7_analyse(prog, fn, {})
+        if res is None:
             continue
-        params = set(fn.param_names())
-        bool_params = {p.arg for p in fn.params() if p.annotation is not None and "bool" in ast.unparse(p.annotation)}
-        tests = _tests_of(fn)
-        if len(tests) > 7:
+        first_pass[fn.qualname] = (fn, res)
+        findings = res[0]
+        moved = {}
+        for key, (st, cst, missing, pd) in findings.items():
+            dtype_params = {p_ for p_ in pd if _used_only_as_dtype(fn, p_)}
+            if dtype_params and dtype_params == set(pd):
+                moved[key] = (dtype_params, set(missing))
+        if moved and len(moved) == len(findings):
+            dps, stored = set(), set()
+            for d_, m_ in moved.values():
+                dps |= d_
+                stored |= m_
+            summaries[fn.name] = (fn, dps, stored)
+    for fn in fns:
+        res = _k7_analyse(prog, fn, summaries) if summaries else (first_pass.get(fn.qualname) or (None, None))[1]
+        if res is None:
             continue
-        # quick filter: does the function create a buffer with a non-constant dtype?
-        has = False
-        for node in walk_no_nested(fn.node):
-            if isinstance(node, ast.Call) and isinstance(node.func, ast.Attribute) and node.func.attr in BUFFER_MAKERS | LIKE_MAKERS:
-                has = True
-        if not has:
-            continue
-        findings: dict[str, tuple] = {}
-        proven: dict[str, tuple] = {}
-        for mask in range(1 << len(tests)):
-            truth = {t: bool(mask >> i & 1) for i, t in enumerate(tests)}
-            deps: dict[str, set[str]] = {p: {p} for p in params}  # name -> parameters it depends on
-            bufs: dict[str, tuple[set[str], ast.stmt]] = {}
-            for st in _linearise(fn.node.body, truth):
-                def dep_of(e: ast.AST) -> set[str]:
-                    out: set[str] = set()
-                    for x in ast.walk(e):
-                        if isinstance(x, ast.Name) and x.id in deps:
-                            out |= deps[x.id]
-                    return out
-
-                if isinstance(st, ast.Assign) and len(st.targets) == 1:
-                    tgt, val = st.targets[0], st.value
-                    if isinstance(tgt, ast.Name):
-                        made = None
-                        if isinstance(val, ast.Call) and isinstance(val.func, ast.Attribute):
-                            mk = val.func.attr
-                            if mk in BUFFER_MAKERS:
-                                d = next((k.value for k in val.keywords if k.arg == "dtype"), None)
-                                if d is None and mk in ("zeros", "ones", "empty") and len(val.args) >= 2:
-                                    d = val.args[1]
-                                if d is not None and dep_of(d):
-                                    made = dep_of(d)
-                            elif mk in LIKE_MAKERS and val.args and not any(k.arg == "dtype" for k in val.keywords):
-                                if dep_of(val.args[0]):
-                                    made = dep_of(val.args[0])
-                        if made is not None:
-                            bufs[tgt.id] = (made, st)
-                        else:
-                            bufs.pop(tgt.id, None)
-                        deps[tgt.id] = dep_of(val)
-                    elif isinstance(tgt, (ast.Tuple, ast.List)):
-                        d = dep_of(val)
-                        for x in ast.walk(tgt):
-                            if isinstance(x, ast.Name):
-                                deps[x.id] = d
-                                bufs.pop(x.id, None)
-                    elif isinstance(tgt, ast.Subscript) and isinstance(tgt.value, ast.Name) and tgt.value.id in bufs:
-                        pd, cst = bufs[tgt.value.id]
-
-                        def dtype_deps(e: ast.AST) -> set[str]:
-                            """parameters that can widen the dtype of the value e: conditions, masks, indices and truth values do not"""
-                            if isinstance(e, ast.Compare) or (isinstance(e, ast.UnaryOp) and isinstance(e.op, (ast.Invert, ast.Not))):
-                                return set()
-                            if isinstance(e, ast.Call):
-                                f_ = e.func
-                                nm_ = f_.attr if isinstance(f_, ast.Attribute) else getattr(f_, "id", "")
-                                if nm_ == "where" and len(e.args) == 3:
-                                    return dtype_deps(e.args[1]) | dtype_deps(e.args[2])
-                                if nm_.startswith(("is", "logical_")) or nm_ in ("any", "all", "allclose", "array_equal", "nonzero", "argmax", "argmin", "argsort"):
-                                    return set()
-                            if isinstance(e, ast.Subscript):
-                                return dtype_deps(e.value)
-                            if isinstance(e, ast.Name):
-                                return set(deps.get(e.id, set())) - bool_params
-                            out_: set[str] = set()
-                            for ch in ast.iter_child_nodes(e):
-                                if isinstance(ch, ast.expr):
-                                    out_ |= dtype_deps(ch)
-                                elif isinstance(ch, ast.keyword):
-                                    out_ |= dtype_deps(ch.value)
-                            return out_
-
-                        pv = dtype_deps(val) - {fn.params()[0].arg if fn.cls is not None and not fn.is_staticmethod and fn.params() else ""}
-                        key = norm_stmt(st)
-                        if pv and not pv <= pd:
-                            findings[key] = (st, cst, sorted(pv - pd), sorted(pd))
-                        else:
-                            proven.setdefault(key, (st, cst))
-                elif isinstance(st, ast.AugAssign) and isinstance(st.target, ast.Name):
-                    deps[st.target.id] = deps.get(st.target.id, set()) | dep_of(st.value)
+        findings, proven, calls = res
+        is_helper = fn.name in summaries and summaries[fn.name][0] is fn
+        sites = _call_sites(prog, fn) if is_helper else []
         for key, (st, cst, missing, pd) in findings.items():
             n += 1
+            if is_helper:
+                run.add("E6.K7", fn.short, key, PROVEN if sites else UNDECIDED,
+                        (f"the dtype of the buffer is the parameter {pd}: judged at the {len(sites)} call site(s) of {fn.short}" if sites else
+                         f"the dtype of the buffer is the parameter {pd} and no call site of {fn.short} was found in the package"), f"{fn.module.rel}:{st.lineno}")
+                continue
             run.add("E6.K7", fn.short, key, VIOLATION,
                     f"`{key[:70]}` stores data derived from {missing} into a buffer whose dtype (`{norm_stmt(cst)[:70]}`) is computed from "
                     f"{pd} only on some path: values of a wider dtype (fractional into integer, complex into real) are silently truncated",
@@ -1176,6 +1319,14 @@ def rule_K7(run: Run, prog: Program) -> int:
                 continue
             n += 1
             run.add("E6.K7", fn.short, key, PROVEN, "buffer dtype depends on every parameter whose data is stored", f"{fn.module.rel}:{st.lineno}")
+        for key, (c, helper, lacking) in calls["bad"].items():
+            n += 1
+            run.add("E6.K7", fn.short, key, VIOLATION,
+                    f"`{key[:70]}` hands {helper.short} a dtype that on some path does not depend on {lacking}, whose data {helper.short} stores into the buffer it "
+                    f"assembles: values of a wider dtype (fractional into integer, complex into real) are silently truncated", f"{fn.module.rel}:{c.lineno}")
+        for key, (c, helper) in calls["ok"].items():
+            n += 1
+            run.add("E6.K7", fn.short, key, PROVEN, f"the dtype handed to {helper.short} depends on every parameter whose data it stores", f"{fn.module.rel}:{c.lineno}")
     return n
 
 
